@@ -10,9 +10,11 @@ import (
 	"verif/harness/internal/qx"
 
 	"github.com/openziti/storage/ast"
+	"github.com/openziti/storage/boltz"
 	"github.com/openziti/storage/zitiql"
 	"verif/harness/internal/core"
 	"verif/harness/internal/memsym"
+	"verif/harness/internal/schema"
 )
 
 // symbol table for C10: one symbol per type, a set, a non-set used as a set, a map element, a linked set
@@ -70,7 +72,9 @@ func c10Table() (*memsym.Table, []*memsym.Row) {
 var c10Lhs = []string{"sa", "na", "fa", "ba", "da", "ta", "ia", "m.k", "m.a.b", "zz", "ls", "anyOf(ta)", "allOf(ta)", "anyOf(ia)", "allOf(ia)", "count(ta)", "anyOf(sa)", "count(na)", "anyOf(zz)", "anyOf(ls)",
 	"count(from ls where rank > 1)", "count(from ls where name = \"n1\" sort by rank skip 1 limit 1)", "count(from ta where true)", "count(from zz where true)", "anyOf(m.k)"}
 var c10Scalars = []string{`"ab"`, `""`, "3", "-1", "2.5", "1e3", "9223372036854775807", "9223372036854775808", "datetime(2020-01-02T03:04:05Z)", "datetime(2020-01-02T03:04:05.123+05:45)", "true", "FALSE", "null", "NULL"}
-var c10Arrays = []string{`["a", "b"]`, `[1, 2]`, `[1.5, 2]`, `[1, 2.5, 3]`, `[datetime(2020-01-02T03:04:05Z)]`, `[datetime(2020-01-02T03:04:05Z), datetime(2021-01-02T03:04:05Z)]`, `["a"]`, `[1]`}
+var c10Arrays = []string{`["a", "b"]`, `[1, 2]`, `[1.5, 2]`, `[1, 2.5, 3]`, `[datetime(2020-01-02T03:04:05Z)]`, `[datetime(2020-01-02T03:04:05Z), datetime(2021-01-02T03:04:05Z)]`, `["a"]`, `[1]`,
+	// long lists (16 and more elements; values below, inside and above the list's range occur among the rows)
+	`[-9, -8, -7, -6, -5, -4, -3, -2, -1, 0, 1, 2, 3, 4, 5, 6, 7, 8, 9, 10]`, `["a", "b", "c", "d", "e", "f", "g", "h", "i", "j", "k", "l", "m", "n", "o", "p", "q"]`, `[0.5, 1.5, 2.5, 3.5, 4.5, 5.5, 6.5, 7.5, 8.5, 9.5, 10.5, 11.5, 12.5, 13.5, 14.5, 15.5]`, `[-11, -4, 3, 10, -6, 1, 8, -8, -1, 6, -10, -3, 4, 11, -5, 2, 9, -7, 0, 7, -9, -2, 5, -11, -4, 3, 10, -6, 1, 8, -8, -1, 6, -10, -3, 4, 11, -5, 2, 9]`}
 var c10Betweens = []string{"1 and 5", "1.5 and 5", "1 and 5.5", "datetime(2020-01-01T00:00:00Z) and datetime(2021-01-01T00:00:00Z)", "5 and 1", "-1 and -1"}
 var c10Suffix = []string{"", " sort by sa", " sort by na desc, sa asc", " sort by ta", " sort by zz", " sort by m.k", " skip 1", " skip -1", " limit 1", " limit none", " limit -3", " skip 2 limit 2", " sort by da skip 0 limit 0", " skip 1.5", " limit 2.5", " skip 9223372036854775807 limit 9223372036854775807"}
 
@@ -214,7 +218,7 @@ func init() {
 			"(b) token-level mutations of them (delete, duplicate, swap, replace, truncate); (c) all token sequences of length <= 3 (quick) / 4 (thorough) over a 43-token alphabet; (d) random bytes and runes. " +
 			"Every input is parsed against an in-memory symbol table; a panic is a violation; every accepted query is evaluated on rows with all-null fields, empty sets, null set elements and mistyped map values (panic = violation). " +
 			"Rejection oracle: a sentence with one character that no lexer rule matches inserted at a token boundary, and a sentence truncated inside an open parenthesis/bracket/function call, is not a sentence and must be rejected. " +
-			"The sentence families are also run through Store.QueryIds on a populated and an empty bolt store (schema Q, with sort / skip / limit suffixes that page past the end) and through ObjectStore.QueryEntities on a populated and an empty in-memory object store (unknown and set-like names in predicates and sort clauses). " +
+			"The sentence families are also run through Store.QueryIds on a populated bolt store, an emptied one and a database nothing was ever written to (no entities bucket, no index buckets); in-lists of 16-40 integers, strings and floats are among the arrays; (schema Q, with sort / skip / limit suffixes that page past the end) and through ObjectStore.QueryEntities on a populated and an empty in-memory object store (unknown and set-like names in predicates and sort clauses). " +
 			"A canary query with a known truth table is re-parsed between inputs (pooled lexer/parser state). non-trivial = distinct inputs that were accepted and evaluated, plus distinct rejected-by-construction inputs",
 		Assumptions: []string{"membership in the grammar is judged only for non-sentences by construction; termination is a per-worker watchdog (inconclusive when it fires)"},
 		Exhaustive:  func(core.Tier) bool { return true },
@@ -579,8 +583,15 @@ func c10Bolt(c *core.Ctx, part int) {
 		return
 	}
 	defer emptyEnv.close()
+	// a database nothing was ever written to: neither the entities bucket nor the index buckets of the store exist
+	virginEnv := &qEnv{c: c, sc: schema.Build(qx.Defs()), path: c.TempFile("q"), w: emptyEnv.w}
+	if virginEnv.db, err = boltz.Open(virginEnv.path, "stores"); err != nil {
+		c.Violation("C10 setup", err.Error(), nil)
+		return
+	}
+	defer virginEnv.close()
 	// one more top-level symbol whose type is only known per row (any-type) on both stores
-	for _, e := range []*qEnv{env, emptyEnv} {
+	for _, e := range []*qEnv{env, emptyEnv, virginEnv} {
 		e.sc.St(qx.Things).Store.AddSymbolWithKey("anything", ast.NodeTypeAnyType, "ism")
 	}
 	sentences := c10SentencesFor(append(append([]string{}, c10BoltLhs...), "anything", "anyOf(anything)"))
@@ -616,6 +627,7 @@ func c10Bolt(c *core.Ctx, part int) {
 			q := sentences[i] + suf
 			try(env, q, "bolt_queries_accepted")
 			try(emptyEnv, q, "bolt_queries_on_empty_store")
+			try(virginEnv, q, "bolt_queries_on_a_database_never_written_to")
 		}
 	}
 }
